@@ -136,8 +136,17 @@ func streamSelectCurrent(r *rand.Rand, i int, tier string) *Case {
 		eds.Annotations[edsv1.ExtendedDaemonSetCanaryValidAnnotationKey] = up.Name
 		cat = append(cat, "valid:this")
 	case 1:
-		eds.Annotations[edsv1.ExtendedDaemonSetCanaryValidAnnotationKey] = pick(r, "foo-other", act.Name, "")
+		eds.Annotations[edsv1.ExtendedDaemonSetCanaryValidAnnotationKey] = pick(r, "foo-other", act.Name, "", "foo-prev")
 		cat = append(cat, "valid:other")
+	}
+	// status.canary as the previous reconcile left it: the up-to-date replica set, or the canary that
+	// a template edit has just superseded (the status is rewritten only by this reconcile)
+	switch r.Intn(3) {
+	case 0:
+		eds.Status.Canary = &edsv1.ExtendedDaemonSetStatusCanary{ReplicaSet: up.Name, Nodes: []string{"n1"}}
+	case 1:
+		eds.Status.Canary = &edsv1.ExtendedDaemonSetStatusCanary{ReplicaSet: pick(r, "foo-prev", "foo-prev", act.Name), Nodes: []string{"n1"}}
+		cat = append(cat, "status-canary:superseded")
 	}
 	var active *edsv1.ExtendedDaemonSetReplicaSet
 	same := false
